@@ -710,21 +710,24 @@ def tabulate_failing_lookups(image, units, info_size):
     return out
 
 
-def tabulate_cfi(image, ids, eh):
-    """[kind, index of the entry's CIE in the list, id of its decoded table] per entry; every table is decoded
-    on a freshly fetched list on which nothing else was decoded before"""
+def tabulate_cfi(image, ids, eh, fresh_per_entry=60):
+    """[kind, index of the entry's CIE in the list, id of its decoded table] per entry.  The first `fresh_per_entry`
+    tables are each decoded on a freshly fetched list (new entry objects) on which nothing else was decoded before;
+    the tables of a longer list are decoded in section order on one more fresh list (fetching a list parses the whole
+    section, so per-entry lists are quadratic).  All lists come from one DWARFInfo made for this purpose only, in the
+    child process that tabulates this file."""
     from elftools.dwarf.callframe import CIE, FDE
+    dw = _fresh_dw(image)
     def fetch():
-        d = _fresh_dw(image)
-        return d.EH_CFI_entries() if eh else d.CFI_entries()
+        return dw.EH_CFI_entries() if eh else dw.CFI_entries()
     es = fetch()
+    tail = fetch() if len(es) > fresh_per_entry else None
     out = []
     for i, e in enumerate(es):
-        if isinstance(e, CIE):
-            out.append([0, 0, ids.of(ser_decoded(fetch()[i].get_decoded()))])
-        elif isinstance(e, FDE):
-            ci = _index_is(es, e.cie)
-            out.append([1, ci, ids.of(ser_decoded(fetch()[i].get_decoded()))])
+        if isinstance(e, (CIE, FDE)):
+            lst = fetch() if i < fresh_per_entry else tail
+            tid = ids.of(ser_decoded(lst[i].get_decoded()))
+            out.append([0, 0, tid] if isinstance(e, CIE) else [1, _index_is(es, e.cie), tid])
         else:
             out.append([2, 0, 0])
     return out
@@ -980,7 +983,7 @@ def alphabet(meta, machine):
         pick = {'A': dict(deep='param', sib='member', nos='sub', withsib='struct', gref='gvar', lref='param', other='long'),
                 'B': dict(deep='deep', sib='mem', nos='ns', withsib='T', gref='ptr', lref='k', other='z'),
                 'C': dict(deep='c', sib='a', nos='f2', withsib='f1', gref=None, lref=None, other='d')}[meta['name']]
-        ops += [['Disturb', 1, 0], ['Disturb', 1, info_mid], ['Disturb', 3, 7]]      # the frame stream: alphabet DF
+        ops += [['Disturb', 1, 0], ['Disturb', 1, info_mid], ['Disturb', 3, 7], ['Disturb', 4, 5]]
         ops += [['CUAt', ul], ['CUContaining', ul + 3], ['TopDIE', u0]]
         ops += [['DIEAt'] + list(lab(pick['deep'])), ['DIEAt'] + list(lab(pick['sib']))]
         ops += [['DIEGlobal', lab(pick['other'])[1]]]
@@ -989,7 +992,7 @@ def alphabet(meta, machine):
             ops += [['FollowRef'] + list(lab(pick['gref'])) + [0]]
         if pick['lref']:
             ops += [['FollowRef'] + list(lab(pick['lref'])) + [0]]
-        ops += [['LineProg', u0], ['LineEntries', ul]]
+        ops += [['LineProg', u0], ['LineEntries', ul], ['CFI', 0]]
         ops += [['NewIterCUs', 0], ['NewIterDIEs', 0, u0], ['NewIterChildren', 1] + list(lab(pick['nos'])),
                 ['NewIterSiblings', 1] + list(lab(pick['withsib'])), ['Next', 0], ['Next', 1]]
     elif machine == 'DN':
